@@ -11,7 +11,13 @@ import (
 // input with the documented scale (doubled by the fold).  The data path of the swap (key switch between rings of
 // different degree, fold / unfold) is outside: the algebraic model has no conjugate-invariant transform.
 
-func VerifH_C04_RingSwapBookkeeping() {
+type vSwapCtx struct {
+	Std, CI Parameters
+	Sw      DomainSwitcher
+	Eval    *Evaluator
+}
+
+func VerifSetup_RingSwap() *vSwapCtx {
 	std, err := NewParametersFromLiteral(ParametersLiteral{LogN: 5, Q: []uint64{12289, 40961, 65537}, P: []uint64{114689}, LogDefaultScale: 8})
 	if err != nil {
 		panic(err)
@@ -21,8 +27,15 @@ func VerifH_C04_RingSwapBookkeeping() {
 		panic(err)
 	}
 	sw, err := NewDomainSwitcher(std, rlwe.NewEvaluationKey(std), rlwe.NewEvaluationKey(std))
-	vAssert(err == nil, "NewDomainSwitcher-no-error")
-	eval := NewEvaluator(std, nil)
+	if err != nil {
+		panic(err)
+	}
+	return &vSwapCtx{Std: std, CI: ci, Sw: sw, Eval: NewEvaluator(std, nil)}
+}
+
+func VerifH_C04_RingSwapBookkeeping() {
+	c := VerifSetup_RingSwap()
+	std, ci, sw, eval := c.Std, c.CI, c.Sw, c.Eval
 	maxL := std.MaxLevel()
 	for inL := 0; inL <= maxL; inL++ {
 		for outL := 0; outL <= maxL; outL++ {
